@@ -118,7 +118,7 @@ def check(ctx):
         L = rnd.choice([h - 1, h, h, h + 1, h + 4, h + 30])
         fr = (bytes([fc0, fc1]) + payload(rnd, max(0, L - 2)))[:max(L, 0)]
         tail = (zlib.crc32(fr) & 0xffffffff).to_bytes(4, "little") if fcs else b""
-        lines.append("cls 1 " + ((pre + fr + tail).hex() or "-"))
+        lines.append("cls %d %s" % (1 if i % 4 else rnd.choice([2, -1, 8, 255, 256, 65536, 2147483647, -2147483648]), (pre + fr + tail).hex() or "-"))   # any non-zero mode selector
     fw.run_suite(ctx, exe, "S-cls/radiotap-fields", lines, "frame classification")
     # the result may not depend on where the capture lies in memory (alignment is relative to the header start)
     for k in (1, 4):
